@@ -211,6 +211,12 @@ def main(argv):
     os.makedirs(rundir)
 
     specs = mod.plan(tier, seed)
+    if tier == "thorough":
+        # depth of the thorough tier: the plans give the relative shard sizes, this factor the absolute depth
+        scale = float(os.environ.get("VERIF_THOROUGH_SCALE", getattr(mod, "THOROUGH_SCALE", 6)))
+        for spec in specs:
+            if spec.get("n_cases"):
+                spec["n_cases"] = int(spec["n_cases"] * scale)
     for i, spec in enumerate(specs):
         spec.setdefault("prop", prop)
         spec.setdefault("tier", tier)
